@@ -115,8 +115,13 @@ def ess_rule(ctx, clause):
         norm = []
         if len(kish) == 1:
             w = kish[0][1]["w"]
-            norm = [s_ for s_ in sts if match_stmt("$$w -= logsumexp($$w)", s_, {"w": w}) is not None or match_stmt("$$w = $$w - logsumexp($$w)", s_, {"w": w}) is not None]
-        ok = len(norm) == 1 and len(kish) == 1 and norm[0].lineno < kish[0][0].lineno
+            # normalised in place, or into a new local (`p = w - logsumexp(w)`)
+            norm = [s_ for s_ in sts if match_stmt("$$w -= logsumexp($$w)", s_, {"w": w}) is not None or match_stmt("$$w = $$w - logsumexp($$w)", s_, {"w": w}) is not None or match_stmt("$$w = $$v - logsumexp($$v)", s_, {"w": w}) is not None]
+        if not kish:
+            # ... or written into the Kish expression itself
+            kish = find_expr("exp(-logsumexp(2 * ($v - logsumexp($v))))", g.node)
+            norm = [kish[0][0]] if len(kish) == 1 else []
+        ok = len(norm) == 1 and len(kish) == 1 and norm[0].lineno <= kish[0][0].lineno
         ctx.ob("R-SIB", clause, g, "Kish effective sample size in log space: exp(-logsumexp(2 (w - logsumexp w)))", ok, f"normalise `{src(norm[0]) if norm else None}` ; `{src(kish[0][0]) if kish else None}`")
         reports = []
         chk = DegChecker({}, set(), lambda node, msg: reports.append((node, msg)))
